@@ -20,7 +20,7 @@ for pid in ['C%02d' % i for i in range(1, 21)]:
             evidence_file='evidence/%s.json' % pid,
             replay_cmd_template='cat {path}',
             engine='vx-verus',
-            level_claimed=dict(category='proof', text=c['level_text'], design_ref=c.get('design_ref', 'DESIGN.md section 5')),
+            level_claimed=dict(category='proof', text=c['level_text'], design_ref=c.get('design_ref', 'DESIGN.md section 12 (as built; supersedes section 5 where they differ)')),
             level_note=c['level_note'],
             technique=c.get('technique', 'contract-based deductive verification (Verus/Z3) of functions extracted mechanically from /repo on every run'),
         ))
